@@ -87,6 +87,7 @@ fn main() {
         "C05" => go(props::c05::C05, rest),
         "C06" => go(props::c06::C06, rest),
         "C07" => go(props::c07::C07, rest),
+        "C08" => go(props::c08::C08, rest),
         "C09" => go(props::c09::C09, rest),
         "C18" => go(props::c18::C18, rest),
         "C19" => go(props::c19::C19, rest),
